@@ -297,7 +297,15 @@ for a in range(4):
 
 
 # ---------------------------------------------------------------------------------------------------
-MODULES = ['k1_lib', 'k2_insert', 'k2_remove', 'k2_range', 'k2_misc', 'k1_handles', 'k1_types', 'k2_lazy', 'k1_rawparts', 'k1_heap', 'k1_misc', 'k1_mem', 'k1_views']
+# C15 type-level table
+add('t_sendsync', 't_vectors', 't_vectors_h()', props=['C15'], tier='q', cost=3, macro='p')
+add('t_sendsync', 't_elements', 't_elements_h()', props=['C15'], tier='q', cost=3, macro='p')
+add('t_sendsync', 't_handles', 't_handles_h()', props=['C15'], tier='q', cost=5, macro='p')
+add('t_sendsync', 't_vectors_noalloc', 't_vectors_h()', props=['C15'], tier='t', cost=3, macro='p', flags=['nodefault'])
+
+
+# ---------------------------------------------------------------------------------------------------
+MODULES = ['k1_lib', 'k2_insert', 'k2_remove', 'k2_range', 'k2_misc', 'k1_handles', 'k1_types', 'k2_lazy', 'k1_rawparts', 'k1_heap', 'k1_misc', 'k1_mem', 'k1_views', 't_sendsync']
 
 
 def write_instances(kv_dir, selected):
@@ -342,3 +350,30 @@ PROPS['C03'] = dict(level='proof', lemmas=[], functions=['every K2 contract (own
 PROPS['C05'] = dict(level='proof', lemmas=[], functions=['every primitive recorder precondition over the relocating GhostMem'], explanation='every primitive call lies inside the current region.')
 PROPS['C06'] = dict(level='proof', lemmas=[], functions=['panic-view invariant at every call-out'], explanation='panic-view invariant at every call-out; misreporting replacement iterator.')
 PROPS['C07'] = dict(level='proof', lemmas=[], functions=['mem::forget of Pop/Remove/SwapRemove/Drain/Splice'], explanation='forget harnesses.')
+
+PROPS['C04'] = dict(level='proof', lemmas=[], functions=['AnyVecRaw::type_check', 'lib.rs::assert_types_equal', 'AnyVec::{push,insert,splice,downcast_ref,downcast_mut,element_typeid,element_layout}',
+    'AnyValue::{downcast,downcast_ref}', 'AnyValueMut::{downcast_mut,swap}', 'ElementPointer::{downcast_ref,downcast_mut}', 'Splice::drop (type check of each replacement)'],
+    explanation='Finite type table x full-domain vector states: mismatching push/insert/swap cannot return and touch nothing; splice stays valid; downcasts are Some exactly for the real type.')
+PROPS['C08'] = dict(level='proof', lemmas=[], functions=['AnyVec::{clone,clone_empty,clone_empty_in}', 'AnyVecRaw::{clone,clone_empty,clone_empty_in}'],
+    explanation='clone contract from every state incl. fixed-capacity targets; the element clone loop itself is a bounded K1 stand-in.')
+PROPS['C09'] = dict(level='proof', lemmas=[], functions=['AnyValueCloneable::lazy_clone', 'LazyClone::{move_into,clone_into,clone}', 'ElementPointer::clone_into', 'TempValue::clone_into'],
+    explanation='creation/copy/drop of lazy clones fires no recorder; each consumption is exactly one clone call-out from the original source, chain depth 1..3, five source kinds.')
+PROPS['C10'] = dict(level='proof', lemmas=[], functions=['AnyVecRaw::{reserve,reserve_exact,shrink_to,shrink_to_fit,reserve_one}', 'AnyVec::with_capacity_in', 'HeapMem::{expand,resize}', 'Heap::build_with_size'],
+    explanation='capacity contracts over the ghost backend (full domain) and the real HeapMem against the allocator protocol (full usize range).')
+PROPS['C11'] = dict(level='proof', lemmas=[], functions=['Stack::build', 'StackN::build', 'Mem::expand (default)', 'AnyVecRaw::{reserve_one,reserve,clone}', 'Splice::drop'],
+    explanation='capacity formulas of the real builders on a grid; operations reach Mem::expand exactly when the result exceeds capacity (fixed-capacity ghost backend), and then before any effect.')
+PROPS['C12'] = dict(level='proof', lemmas=[], functions=['AnyVec::{as_bytes,as_bytes_mut,spare_bytes_mut,set_len}', 'AnyVecTyped::{as_ptr,as_mut_ptr,as_slice,as_mut_slice,spare_capacity_mut,set_len}', 'mem::dangling', 'StackMem/StackNMem/EmptyMem/HeapMem::as_ptr'],
+    explanation='views are (base, len x size) / (base + len x size, (cap - len) x size) for every state; storage pointer alignment per backend.')
+PROPS['C13'] = dict(level='proof', lemmas=[], functions=['AnyVec::{get,get_mut,at,at_mut}', 'AnyVecTyped::{get,get_mut,at,at_mut}', 'iter::Iter::{next,next_back}', 'AnyValueMut::swap', 'AnyValueTypelessMut::swap_unchecked'],
+    explanation='handle address == base + size x i for every index; swap on real memory for all handle-kind pairs (values symbolic; 3-element vectors: bounded).')
+PROPS['C14'] = dict(level='proof', lemmas=[], functions=['iter::Iter::{next,next_back,size_hint,len,clone}', 'ops::Iter::{next,next_back,size_hint,len}'],
+    explanation='cursor contracts from every (index,end) state; interleavings by the Verus lemma.')
+PROPS['C15'] = dict(level='other', lemmas=[], functions=['unsafe impl Send/Sync for AnyVec, AnyVecTyped, ElementPointer, iter::Iter, TempValue', 'SatisfyTraits impls', 'Clone for AnyVec'],
+    explanation='The property is a finite table of trait judgements. Each cell is an obligation on the real public types, evaluated by the Rust trait solver (impls! const) and discharged as a constant check; exhaustive over the table. Not covered: absence of methods guarded by where-clauses, and compile errors of constructor calls beyond the SatisfyTraits judgement.',
+    technique='type-level obligations: trait judgements of the real types as constant assertions inside the crate (rustc trait solver), discharged by Kani')
+PROPS['C17'] = dict(level='proof', lemmas=[], functions=['AnyVec::{into_raw_parts,from_raw_parts}', 'RawParts::clone', 'HeapMem::{into_raw_parts,from_raw_parts}', 'EmptyMem::{into_raw_parts,from_raw_parts}'],
+    explanation='field-wise round trip for every state on the ghost backend, the real HeapMem (allocator protocol) and Empty.')
+PROPS['C18'] = dict(level='proof', lemmas=[], functions=['HeapMem::{resize,expand,drop,into_raw_parts,from_raw_parts}', 'Heap::{build,build_with_size}'],
+    explanation='the real HeapMem against an allocator-protocol model over the full usize range of capacities, per element layout.')
+PROPS['C19'] = dict(level='proof', lemmas=[], functions=['the C01/C02/C08/C11 contracts on the --no-default-features build'],
+    explanation='the fixed-capacity contract harnesses are re-discharged on the --no-default-features build; mem::Default is Empty there.')
